@@ -5,7 +5,9 @@ import (
 	"encoding/json"
 	"fmt"
 	"os"
+	"regexp"
 	"sort"
+	"strings"
 	"sync"
 	"testing"
 	"testing/synctest"
@@ -25,7 +27,7 @@ import (
 // ---- white-box: operation strings on the real cache ----------------------------------------------
 
 type cacheOp struct {
-	Op      string      `json:"op"` // append | mark | put | remove | get | list | ctx | ctxstate
+	Op      string      `json:"op"` // append | mark | put | remove | get | list | ctx | ctxstate | ctxcancel
 	ID      string      `json:"id,omitempty"`
 	Ver     int         `json:"ver,omitempty"`
 	Tearing bool        `json:"tearing,omitempty"`
@@ -53,7 +55,7 @@ func cacheRes(o cacheOp, t0 time.Time) *Res {
 	return r
 }
 
-func runCacheCase(t *testing.T, ops []cacheOp) (coq string, flags map[string]bool) {
+func runCacheCase(t *testing.T, ops []cacheOp) (coq string, flags map[string]bool, problems []string) {
 	flags = map[string]bool{}
 
 	synctest.Test(t, func(t *testing.T) {
@@ -65,9 +67,23 @@ func runCacheCase(t *testing.T, ops []cacheOp) (coq string, flags map[string]boo
 		kind := resource.NewMetadata("n1", "T", "", resource.VersionUndefined)
 
 		var (
-			items []string
-			ctxs  = map[int]context.Context{}
+			items   []string
+			ctxs    = map[int]context.Context{}
+			parents = map[int]context.CancelFunc{}
+			ctxID   = map[int]string{}
+			must    = map[int]string{} // contexts that have to be cancelled by now, and why
 		)
+
+		// a teardown-bound context is cancelled when its resource is torn down or removed (Go-side monitor)
+		gone := func(id, why string) {
+			for k, cid := range ctxID {
+				if cid == id {
+					if _, ok := must[k]; !ok {
+						must[k] = why
+					}
+				}
+			}
+		}
 
 		// runs f in a goroutine; reports whether it returned before everything in the bubble blocked
 		blocked := func(f func(ctx context.Context)) bool {
@@ -118,11 +134,16 @@ func runCacheCase(t *testing.T, ops []cacheOp) (coq string, flags map[string]boo
 				r := cacheRes(o, t0)
 				c.CachePut(r)
 				synctest.Wait()
+
+				if o.Tearing {
+					gone(o.ID, "its resource was put in phase tearing down")
+				}
 				items = append(items, "(KPut "+coqRes(r, t0)+")")
 			case "remove":
 				r := cacheRes(o, t0)
 				c.CacheRemove(r)
 				synctest.Wait()
+				gone(o.ID, "its resource was removed")
 				items = append(items, "(KRemove "+coqRes(r, t0)+")")
 			case "get":
 				var (
@@ -186,10 +207,14 @@ func runCacheCase(t *testing.T, ops []cacheOp) (coq string, flags map[string]boo
 					err  error
 				)
 
+				// each teardown-bound context has its own parent, so that one reader can leave while others stay
+				pctx, pcancel := context.WithCancel(ctx)
+				parents[o.K] = pcancel
+
 				isBlocked := blocked(func(cctx context.Context) {
-					// the returned context must outlive the call: derive it from the long-lived ctx once unblocked
+					// the returned context must outlive the call: derive it from the long-lived parent once unblocked
 					_ = cctx
-					rctx, err = c.ContextWithTeardown(ctx, resource.NewMetadata("n1", "T", o.ID, resource.VersionUndefined))
+					rctx, err = c.ContextWithTeardown(pctx, resource.NewMetadata("n1", "T", o.ID, resource.VersionUndefined))
 				})
 
 				if isBlocked {
@@ -203,10 +228,18 @@ func runCacheCase(t *testing.T, ops []cacheOp) (coq string, flags map[string]boo
 
 				synctest.Wait()
 				ctxs[o.K] = rctx
+				ctxID[o.K] = o.ID
 				items = append(items, fmt.Sprintf("(KCtx %s %s (Some %s))", coqN(uint64(o.K)), coqAtom(o.ID), coqBool(rctx.Err() != nil)))
 
 				if rctx.Err() != nil {
 					flags["ctx_cancelled_at_once"] = true
+				}
+			case "ctxcancel":
+				if pc, ok := parents[o.K]; ok {
+					pc()
+					synctest.Wait()
+					items = append(items, fmt.Sprintf("(KCtxCancel %s)", coqN(uint64(o.K))))
+					flags["ctx_parent_cancelled"] = true
 				}
 			case "ctxstate":
 				if rctx, ok := ctxs[o.K]; ok {
@@ -231,6 +264,10 @@ func runCacheCase(t *testing.T, ops []cacheOp) (coq string, flags map[string]boo
 
 		for _, k := range ks {
 			items = append(items, fmt.Sprintf("(KCtxState %s %s)", coqN(uint64(k)), coqBool(ctxs[k].Err() != nil)))
+
+			if why, ok := must[k]; ok && ctxs[k].Err() == nil {
+				problems = append(problems, fmt.Sprintf("ctx-not-cancelled: the teardown-bound context %d of %q is still live although %s after it was taken", k, ctxID[k], why))
+			}
 		}
 
 		coq = coqList(items)
@@ -239,7 +276,7 @@ func runCacheCase(t *testing.T, ops []cacheOp) (coq string, flags map[string]boo
 		synctest.Wait()
 	})
 
-	return coq, flags
+	return coq, flags, problems
 }
 
 func genCacheCase(r *rng) []cacheOp {
@@ -289,9 +326,23 @@ func genCacheCase(r *rng) []cacheOp {
 			}
 
 			ops = append(ops, o)
-		case x < 88:
+		case x < 86:
 			ops = append(ops, cacheOp{Op: "ctx", ID: id, K: nextK})
 			nextK++
+
+			// several readers bound to the same resource; one of them may leave before the teardown
+			if r.chance(1, 3) {
+				ops = append(ops, cacheOp{Op: "ctx", ID: id, K: nextK})
+				nextK++
+
+				if r.chance(1, 2) {
+					ops = append(ops, cacheOp{Op: "ctxcancel", K: nextK - 1 - r.intn(2)})
+				}
+			}
+		case x < 90:
+			if nextK > 0 {
+				ops = append(ops, cacheOp{Op: "ctxcancel", K: r.intn(nextK)})
+			}
 		default:
 			if nextK > 0 {
 				ops = append(ops, cacheOp{Op: "ctxstate", K: r.intn(nextK)})
@@ -300,6 +351,163 @@ func genCacheCase(r *rng) []cacheOp {
 	}
 
 	return ops
+}
+
+// ---- a reader overlapping a cache update: the cached objects' Metadata() can park the reader once --------
+
+type luCase struct {
+	Init   []string `json:"init"`   // ids in the cache (sorted), all labelled k=v
+	ParkAt int      `json:"park"`   // the reader parks when it first touches this item
+	Update string   `json:"update"` // put:<id> | remove:<id> | update:<id>, applied while the reader is parked
+	Query  string   `json:"query"`  // label | id | none
+	Spare  bool     `json:"spare"`  // give the cache's slice spare capacity first (append + remove)
+}
+
+type parkRes struct {
+	*Res
+	hook func()
+}
+
+func (p *parkRes) Metadata() *resource.Metadata {
+	if p.hook != nil {
+		p.hook()
+	}
+
+	return p.Res.Metadata()
+}
+
+func (p *parkRes) DeepCopy() resource.Resource { return p.Res.DeepCopy() } //nolint:ireturn
+
+// runListDuringUpdate: List must return the cache contents (matching the query) as they were before or after the
+// overlapping update - never a mixture, never a panic.
+func runListDuringUpdate(t *testing.T, c luCase) (problems []string) {
+	synctest.Test(t, func(t *testing.T) {
+		ctx, cancel := context.WithCancel(context.Background())
+		defer cancel()
+
+		cache := cruntime.VerifNewResourceCache([]options.CachedResource{{Namespace: "n1", Type: "T"}})
+		kind := resource.NewMetadata("n1", "T", "", resource.VersionUndefined)
+
+		mk := func(id, payload string) *Res {
+			r := newRes("n1", "T", id, payload)
+			r.Metadata().Labels().Set("k", "v")
+			v, _ := resource.ParseVersion("1") //nolint:errcheck
+			r.Metadata().SetVersion(v)
+
+			return r
+		}
+
+		var (
+			armed   bool
+			parked  = make(chan struct{})
+			release = make(chan struct{})
+		)
+
+		for i, id := range c.Init {
+			pr := &parkRes{Res: mk(id, "p0")}
+
+			if i == c.ParkAt {
+				pr.hook = func() {
+					if armed {
+						armed = false
+
+						close(parked)
+						<-release
+					}
+				}
+			}
+
+			cache.CacheAppend(pr)
+		}
+
+		cache.MarkBootstrapped("n1", "T")
+
+		if c.Spare {
+			x := mk("zz", "p0")
+			cache.CachePut(x)
+			cache.CacheRemove(x)
+		}
+
+		render := func(l resource.List) string {
+			s := ""
+			for _, r := range l.Items {
+				s += r.Metadata().ID() + "=" + payloadOf(r) + " "
+			}
+
+			return s
+		}
+
+		var lopts []state.ListOption
+
+		switch c.Query {
+		case "label":
+			lopts = append(lopts, state.WithLabelQuery(resource.LabelEqual("k", "v")))
+		case "id":
+			lopts = append(lopts, state.WithIDQuery(resource.IDRegexpMatch(regexp.MustCompile("^[a-z0-9]$"))))
+		}
+
+		before, err := cache.List(ctx, kind, lopts...)
+		if err != nil {
+			t.Fatal(err)
+		}
+
+		var (
+			got      resource.List
+			gotErr   error
+			panicked any
+			done     = make(chan struct{})
+		)
+
+		armed = true
+
+		go func() {
+			defer close(done)
+			defer func() { panicked = recover() }()
+
+			got, gotErr = cache.List(ctx, kind, lopts...)
+		}()
+
+		synctest.Wait()
+
+		select {
+		case <-parked:
+		default:
+			// the reader never touched that item outside the cache lock (nothing to overlap with)
+			<-done
+
+			return
+		}
+
+		op, id, _ := strings.Cut(c.Update, ":")
+
+		switch op {
+		case "put":
+			cache.CachePut(mk(id, "p0"))
+		case "update":
+			cache.CachePut(mk(id, "p1"))
+		case "remove":
+			cache.CacheRemove(mk(id, "p0"))
+		}
+
+		close(release)
+		<-done
+
+		after, err := cache.List(ctx, kind, lopts...)
+		if err != nil {
+			t.Fatal(err)
+		}
+
+		switch {
+		case panicked != nil:
+			problems = append(problems, fmt.Sprintf("list-during-update: a cached List overlapping %s panicked: %v", c.Update, panicked))
+		case gotErr != nil:
+			problems = append(problems, fmt.Sprintf("list-during-update: a cached List overlapping %s failed: %v", c.Update, gotErr))
+		case render(got) != render(before) && render(got) != render(after):
+			problems = append(problems, fmt.Sprintf("list-during-update: a cached List overlapping %s returned {%s}; the cache held {%s} before and {%s} after the update", c.Update, render(got), render(before), render(after)))
+		}
+	})
+
+	return problems
 }
 
 // ---- black-box: cached vs uncached reads through a running runtime -----------------------------------
@@ -475,6 +683,7 @@ func TestC15(t *testing.T) {
 		Kind string      `json:"kind"`
 		Ops  []cacheOp   `json:"ops,omitempty"`
 		RT   cacheRTCase `json:"rt,omitempty"`
+		LU   luCase      `json:"lu,omitempty"`
 	}
 
 	var cases []c15Case
@@ -504,6 +713,17 @@ func TestC15(t *testing.T) {
 		for range tier(150, 4000) {
 			cases = append(cases, c15Case{Kind: "rt", RT: genCacheRTCase(r)})
 		}
+
+		// a cached List overlapping one cache update, at every item of the cache, for every kind of update
+		for _, init := range [][]string{{"a", "c", "d"}, {"a", "b", "c"}, {"b"}, {"a", "b", "c", "d", "e"}} {
+			for park := range init {
+				for _, up := range []string{"put:b", "put:e", "put:0", "remove:a", "remove:b", "remove:c", "update:a", "update:c"} {
+					for _, q := range []string{"label", "id", "none"} {
+						cases = append(cases, c15Case{Kind: "lu", LU: luCase{Init: init, ParkAt: park, Update: up, Query: q, Spare: (park+len(up))%2 == 0}})
+					}
+				}
+			}
+		}
 	}
 
 	const shard = 250
@@ -526,7 +746,11 @@ func TestC15(t *testing.T) {
 
 		switch c.Kind {
 		case "wb":
-			coq, flags := runCacheCase(t, c.Ops)
+			coq, flags, problems := runCacheCase(t, c.Ops)
+
+			for _, p := range problems {
+				rep.violateKey(i, strings.SplitN(p, ":", 2)[0], p, map[string]any{"case": c})
+			}
 
 			if f == nil {
 				f = newCoqFile(fmt.Sprintf("C15_cache_%d", n/shard), []string{"Store", "StoreCheck", "Ring", "WatchCheck", "Cache", "CacheCheck"}, "list cobs", "cache_mismatches")
@@ -548,6 +772,14 @@ func TestC15(t *testing.T) {
 
 			if len(flags) >= 3 {
 				rep.sample(map[string]any{"ops": c.Ops, "observed_prefix": coq[:min(len(coq), 500)]})
+			}
+		case "lu":
+			problems := runListDuringUpdate(t, c.LU)
+			rep.count(string(key), true)
+			rep.hit("list_during_update")
+
+			for _, p := range problems {
+				rep.violateKey(i, strings.SplitN(p, ":", 2)[0], p, map[string]any{"case": c})
 			}
 		case "rt":
 			problems := runCacheRTCase(t, c.RT)
